@@ -720,6 +720,16 @@ package otto
 //@   ensures !old(is(o.value, bindFunctionObject)) && of.kind == valueObject && is(of.value, *object) && of.value.(*object).prototype == nil ==> !result
 //@   ensures !old(is(o.value, bindFunctionObject)) && called(pr) && pr.kind == valueObject && is(pr.value, *object) && of.kind == valueObject && is(of.value, *object) && of.value.(*object).prototype == pr.value.(*object) ==> result
 
+// 12.6.4 / 15.2.3.14 enumeration: the callback gets a name only while the object has an
+// enumerable property of that name at that moment - a property deleted by an earlier callback
+// (the body of a for-in, a JSON reviver) is not visited.  (Stated for the enumerable-only mode;
+// with all == true the callers do not run script code between two names.)
+//@ func objectEnumerate
+//@   props C07 C11
+//@   nosafety
+//@   requires obj != nil
+//@   at_call $each : !all ==> has(obj.property, arg0) && dig(obj.property[arg0].mode, 1) == 1
+
 // ---------------------------------------------------------------------------
 // dispatch tables of the object classes (discharged against the package initialiser)
 // ---------------------------------------------------------------------------
